@@ -66,19 +66,20 @@ func (sk *storeKey) clone(newId uint64) *storeKey {
 			}
 			payload = &newSl
 		} else if flagHasOne(sk.flags, FLAG_KEY_TYPE_HASH_TABLE) {
-			m := sk.payload.(map[string]string)
-			newMap := make(map[string]string, len(m))
-			for k, v := range m {
-				newMap[k] = v
+			// (hashes and sets are kept in a redisDict; its items are updated in place, so they are not shared)
+			m := sk.payload.(*redisDict)
+			newDict := newRedisDict()
+			for i := m.createIterator(); i.next(); {
+				newDict.store(i.key, i.value)
 			}
-			payload = newMap
+			payload = newDict
 		} else if flagHasOne(sk.flags, FLAG_KEY_TYPE_SET) {
-			m := sk.payload.(map[string]struct{})
-			newMap := make(map[string]struct{}, len(m))
-			for k := range m {
-				newMap[k] = struct{}{}
+			m := sk.payload.(*redisDict)
+			newDict := newRedisDict()
+			for i := m.createIterator(); i.next(); {
+				newDict.store(i.key, i.value)
 			}
-			payload = newMap
+			payload = newDict
 		} else {
 			panic("unexpected payload type")
 		}
